@@ -4,6 +4,7 @@ package c19
 
 import (
 	"bytes"
+	"context"
 	"encoding/json"
 	"errors"
 	"fmt"
@@ -76,6 +77,55 @@ func logOf(f func(*slog.Logger)) map[string]any {
 	return m
 }
 
+// keepHandler keeps the records it is handed (as a batching or asynchronous handler given to
+// F1.WithLogger does) instead of formatting them inside Handle: a record is what was logged for
+// as long as somebody holds it.
+type keepHandler struct{ recs *[]slog.Record }
+
+func (h keepHandler) Enabled(context.Context, slog.Level) bool { return true }
+func (h keepHandler) Handle(_ context.Context, r slog.Record) error {
+	*h.recs = append(*h.recs, r.Clone())
+	return nil
+}
+func (h keepHandler) WithAttrs([]slog.Attr) slog.Handler { return h }
+func (h keepHandler) WithGroup(string) slog.Handler      { return h }
+
+func formatRecord(rec slog.Record) map[string]any {
+	var buf bytes.Buffer
+	_ = slog.NewJSONHandler(&buf, &slog.HandlerOptions{Level: slog.LevelDebug}).Handle(context.Background(), rec)
+	m := map[string]any{}
+	_ = json.Unmarshal(buf.Bytes(), &m)
+	return m
+}
+
+// a logged line whose record is formatted later, after further lines have been logged
+type keptLine struct {
+	pred string
+	args []string
+	rec  slog.Record
+}
+
+func flushKept(o *kit.Out, kept *[]keptLine) {
+	for _, k := range *kept {
+		m := formatRecord(k.rec)
+		if k.pred == "log_progress" {
+			o.Case(k.pred, k.args, kit.List(kit.Str(fmt.Sprint(m["msg"])), statsOf(m)), "log", "kept")
+		} else {
+			_, hasErr := m["error"]
+			o.Case(k.pred, k.args, kit.List(kit.B(m["level"] == "ERROR"), kit.B(hasErr), statsOf(m)), "log", "kept")
+		}
+	}
+	*kept = (*kept)[:0]
+}
+
+func keepLine(kept *[]keptLine, pred string, args []string, f func(*slog.Logger)) {
+	var recs []slog.Record
+	f(slog.New(keepHandler{&recs}))
+	if len(recs) == 1 {
+		*kept = append(*kept, keptLine{pred, args, recs[0]})
+	}
+}
+
 func statsOf(m map[string]any) string {
 	g, _ := m["iteration_stats"].(map[string]any)
 	num := func(k string) string {
@@ -91,7 +141,12 @@ func TestC19(t *testing.T) {
 	r := kit.NewRand(kit.Seed() + 19)
 	v := views.New()
 	n := kit.N(1500, 25000)
+	var kept []keptLine
+	defer func() { flushKept(o, &kept) }()
 	for i := 0; i < n; i++ {
+		if len(kept) >= 12 {
+			flushKept(o, &kept)
+		}
 		tty := r.Bool()
 		switch r.Intn(5) {
 		case 0, 1: // progress
@@ -108,6 +163,9 @@ func TestC19(t *testing.T) {
 			if d.Period < (1<<53) && d.Period > -(1<<53) && d.SuccessfulIterationCount < 1<<50 {
 				m := logOf(vc.Log)
 				o.Case("log_progress", args[1:], kit.List(kit.Str(fmt.Sprint(m["msg"])), statsOf(m)), "log")
+				if i%2 == 0 {
+					keepLine(&kept, "log_progress", args[1:], vc.Log)
+				}
 			}
 		case 2, 3: // result
 			var e error
@@ -136,6 +194,9 @@ func TestC19(t *testing.T) {
 				m := logOf(vc.Log)
 				_, hasErr := m["error"]
 				o.Case("log_result", args[1:], kit.List(kit.B(m["level"] == "ERROR"), kit.B(hasErr), statsOf(m)), "log")
+				if i%2 == 0 {
+					keepLine(&kept, "log_result", args[1:], vc.Log)
+				}
 			}
 		default: // exit / stage lines
 			if r.Bool() {
